@@ -403,14 +403,19 @@ func (s *Session) stopSession(data any) {
 }
 
 func (s *Session) purgeChannels() {
-	for len(s.send) > 0 {
-		<-s.send
-	}
-	for len(s.stop) > 0 {
-		<-s.stop
-	}
-	for len(s.detach) > 0 {
-		<-s.detach
+	// The write loop may be reading the same channels concurrently: a blocking receive after
+	// checking the length could wait forever for an item which the write loop has just taken.
+	for {
+		select {
+		case <-s.send:
+			continue
+		case <-s.stop:
+			continue
+		case <-s.detach:
+			continue
+		default:
+		}
+		break
 	}
 }
 
